@@ -84,6 +84,8 @@ def run(tier, seed):
     res = Result("C01", tier, seed)
     recs, meta = gen(tier, seed)
     judge(res, recs, meta, "c01", seed)
+    from .. import gjkloop
+    gjkloop.run(res, tier, seed)          # loop explorer GjkJolt.tla: model checking + stateful trace validation of real runs
     res.coverage["evaluations"] = len(recs)
     res.coverage["exact"] = sum(1 for r in recs if r["exact"])
     res.coverage["float"] = sum(1 for r in recs if not r["exact"])
